@@ -1,15 +1,24 @@
+// Command vh is the Go side of the go-critic conformance checks: every sub-command
+// replays specification-generated cases on the real code and/or records executions
+// of the real code for validation against the TLA+ specifications.
 package main
 
 import (
 	"fmt"
-
-	"github.com/go-critic/go-critic/checkers"
-	"github.com/go-critic/go-critic/linter"
+	"os"
 )
 
+var commands = map[string]func(args []string){}
+
 func main() {
-	if err := checkers.InitEmbeddedRules(); err != nil {
-		panic(err)
+	if len(os.Args) < 2 {
+		fmt.Fprintln(os.Stderr, "usage: vh <command> [flags]")
+		os.Exit(3)
 	}
-	fmt.Println(len(linter.GetCheckersInfo()))
+	f, ok := commands[os.Args[1]]
+	if !ok {
+		fmt.Fprintln(os.Stderr, "vh: unknown command", os.Args[1])
+		os.Exit(3)
+	}
+	f(os.Args[2:])
 }
